@@ -3,6 +3,8 @@ package frac
 import (
 	"context"
 	"encoding/binary"
+	"io"
+	"os"
 	"sync"
 
 	"github.com/ozontech/seq-db/cache"
@@ -158,4 +160,137 @@ func vSortedDocs(f *Active, ids []seq.ID, bodies [][]byte) {
 			}
 		}
 	}
+}
+
+// ---- two fractions sealed one after the other in one process --------------------------------
+
+var vSDTarget *vFile // where the sorted docs of the fraction being sealed go
+
+func vSDCreate(string) (*os.File, error)                  { return new(os.File), nil }
+func vSDWriter(*os.File) io.Writer                         { return vSeqWriter{vSDTarget} }
+func vSDSyncRename(f *os.File, _ string) (*os.File, error) { return f, nil }
+func vSDStat(*os.File) (os.FileInfo, error)                { return nil, nil }
+
+// vIngest builds an active fraction over in-memory files; symbolic IDs and bytes, or fixed ones.
+func vIngest(n, per int, symbolic bool) (*Active, []seq.ID, [][]byte, *vFile) {
+	docsF, metaF := &vFile{tearAt: -1}, &vFile{tearAt: -1}
+	ai := NewActiveIndexer(1, 8)
+	ai.Start()
+	rd := disk.NewDocsReader(disk.NewReadLimiter(1, nil), nil, cache.NewCache[[]byte](nil, nil))
+	f := &Active{
+		Config:        &Config{},
+		TokenList:     NewActiveTokenList(1),
+		DocsPositions: NewSyncDocsPositions(),
+		MIDs:          NewIDs(),
+		RIDs:          NewIDs(),
+		DocBlocks:     NewIDs(),
+		docsReader:    rd,
+		sortReader:    rd,
+		indexer:       ai,
+		writer:        &ActiveWriter{docs: NewFileWriter(docsF, 0, true), meta: NewFileWriter(metaF, 0, true)},
+		info:          &Info{Path: "frac", From: ^seq.MID(0), To: 0, BinaryDataVer: BinaryDataV1},
+		BaseFileName:  "frac",
+	}
+	f.MIDs.Append(systemMID)
+	f.RIDs.Append(systemRID)
+	ids := make([]seq.ID, n)
+	bodies := make([][]byte, n)
+	var docsPayload, metasPayload []byte
+	inBulk := 0
+	for i := 0; i < n; i++ {
+		if symbolic {
+			ids[i] = seq.ID{MID: seq.MID(rt.NondetU64()), RID: seq.RID(rt.NondetU64())}
+			rt.Assume(rt.And(ids[i].MID >= 1, ids[i].MID < 1<<40))
+			for j := 0; j < i; j++ {
+				rt.Assume(ids[j] != ids[i])
+			}
+			bodies[i] = rt.NondetBytes(1 + rt.Choose(2))
+		} else {
+			ids[i] = seq.ID{MID: seq.MID(1000 + 10*i), RID: seq.RID(5)}
+			bodies[i] = []byte{byte('A' + i), byte('a' + i), '!'}
+		}
+		docsPayload = binary.LittleEndian.AppendUint32(docsPayload, uint32(len(bodies[i])))
+		docsPayload = append(docsPayload, bodies[i]...)
+		md := MetaData{ID: ids[i], Size: uint32(len(bodies[i])), Tokens: []MetaToken{{Key: []byte(seq.TokenAll), Value: []byte{}}}}
+		mb := md.MarshalBinaryTo(nil)
+		metasPayload = binary.LittleEndian.AppendUint32(metasPayload, uint32(len(mb)))
+		metasPayload = append(metasPayload, mb...)
+		inBulk++
+		if inBulk == per || i == n-1 {
+			c := GetDocsMetasCompressor(1, 1)
+			c.CompressDocsAndMetas(docsPayload, metasPayload)
+			d, m := c.DocsMetas()
+			var wg sync.WaitGroup
+			wg.Add(1)
+			disk.VerifReadAt = docsF.readAt
+			err := f.Append(append([]byte(nil), d...), append([]byte(nil), m...), &wg)
+			rt.Assert(err == nil, "the bulk is written")
+			wg.Wait()
+			PutDocMetasCompressor(c)
+			docsPayload, metasPayload, inBulk = nil, nil, 0
+		}
+	}
+	return f, ids, bodies, docsF
+}
+
+func vCheckSorted(sdocs *vFile, ids []seq.ID, bodies [][]byte, offsets []uint64, positions map[seq.ID]seq.DocPos, label string) {
+	disk.VerifReadAt = sdocs.readAt
+	rd := disk.NewDocsReader(disk.NewReadLimiter(1, nil), nil, cache.NewCache[[]byte](nil, nil))
+	for i, id := range ids {
+		p, ok := positions[id]
+		rt.Assert(ok, label+": every document has a position in the sorted docs file")
+		if !ok {
+			continue
+		}
+		bi, off := p.Unpack()
+		rt.Assert(int(bi) < len(offsets), label+": the position names an existing block")
+		if int(bi) >= len(offsets) {
+			continue
+		}
+		got, rerr := rd.ReadDocs(offsets[bi], []uint64{off})
+		rt.Assert(rerr == nil && len(got) == 1, label+": the document is readable at its position")
+		if rerr != nil || len(got) != 1 {
+			continue
+		}
+		rt.Assert(len(got[0]) == len(bodies[i]), label+": same length")
+		if len(got[0]) == len(bodies[i]) {
+			for b := range bodies[i] {
+				rt.Assert(got[0][b] == bodies[i][b], label+": byte for byte")
+			}
+		}
+	}
+}
+
+// VerifTwoSeals: sealing a second fraction in the same process (same pooled writers and buffers)
+// leaves the first sealed fraction's documents where its block offsets and positions say.
+func VerifTwoSeals() {
+	n, per := rt.Param("DOCS"), rt.Param("BULK")
+	params := SealParams{DocBlockSize: rt.Param("SDOCBLOCK"), DocBlocksZstdLevel: 1}
+	fa, idsA, bodiesA, docsA := vIngest(n, per, true)
+	sortedA, _ := sortSeqIDs(fa, fa.MIDs.GetVals(), fa.RIDs.GetVals())
+	sdA := &vFile{tearAt: -1}
+	vSDTarget = sdA
+	disk.VerifReadAt = docsA.readAt
+	_, offA, posA, err := writeSortedDocs(fa, params, sortedA)
+	rt.Assert(err == nil, "first fraction: sorted docs written")
+	if err != nil {
+		return
+	}
+	vCheckSorted(sdA, idsA, bodiesA, offA, posA, "first fraction")
+	rt.Reach("first-sealed")
+
+	fb, idsB, bodiesB, docsB := vIngest(3, 3, false)
+	sortedB, _ := sortSeqIDs(fb, fb.MIDs.GetVals(), fb.RIDs.GetVals())
+	sdB := &vFile{tearAt: -1}
+	vSDTarget = sdB
+	disk.VerifReadAt = docsB.readAt
+	_, offB, posB, err := writeSortedDocs(fb, params, sortedB)
+	rt.Assert(err == nil, "second fraction: sorted docs written")
+	if err != nil {
+		return
+	}
+	vCheckSorted(sdB, idsB, bodiesB, offB, posB, "second fraction")
+	// the first fraction again, with the very slices and map its sealing returned
+	vCheckSorted(sdA, idsA, bodiesA, offA, posA, "first fraction after the second seal")
+	rt.Reach("end")
 }
